@@ -228,6 +228,7 @@ def run(ctx):
     F = ctx.facts
     r27_3(ctx)
     r27_4(ctx)
+    r27_5(ctx)
     ctx.rule('R27.1', 'every reporting call is dominated by the enable test of every optional severity / inconclusive '
                       'certainty it can carry (interprocedural path conditions, truth-table decision)')
     ctx.rule('R27.2', 'the option assignments under which a reporting call is reachable are upward closed')
@@ -553,3 +554,58 @@ def r27_4(ctx):
                                 'result is returned depends on the option, so enabling it can replace a finding that was already reported with the option off'
                                 % (f['name'], g['params'][i]['n'], g['name'], x['l'], ', '.join(sorted(set(uses))[:3]))), '%s:%s' % (f['file'], x['l']))
     ctx.floor('R27.4 option tests passed to data-returning functions', n, 1)
+
+
+def r27_5(ctx):
+    """R27.5  option tests gate reports, not check state: inside a branch controlled by a severity / certainty test a Check may report, but must not
+    modify its own member state (directly or through a member function that writes a field of the class).  State written only when an option is on is
+    read by later code of the same check (de-duplication registers, "already diagnosed" sets), so enabling the option changes or removes findings that do
+    not depend on the option themselves."""
+    from .common.facts import walk
+    F = ctx.facts
+    ctx.rule('R27.5', 'no Check modifies its member state inside a branch controlled by a severity / certainty test')
+    OPT = ('Settings::severity', 'Settings::certainty')
+
+    def is_opt(n, optlocals):
+        for y in walk(n):
+            if y.get('k') == 'CXXMemberCallExpr' and (y.get('fn') or '').endswith('isEnabled') and any(z.get('k') == 'MemberExpr' and z.get('n') in OPT for z in walk(y)):
+                return True
+            if y.get('k') == 'DeclRefExpr' and y.get('di') in optlocals:
+                return True
+        return False
+    writers = {}
+    for f in F.all_fns():
+        if f['file'].startswith('lib/check') and f.get('cls'):
+            w = sorted({a['n'] for a in f['acc'] if a['n'].startswith(f['cls'] + '::') and a['a'] not in ('r', 'a')})
+            if w:
+                writers[f['id']] = (f, w)
+    seen = set()
+    nbranches = 0
+    hits = {}
+    for f in F.all_fns():
+        if not f['file'].startswith('lib/check') or F.key(f) in seen or not f.get('cls'):
+            continue
+        seen.add(F.key(f))
+        if not any(a['n'] in OPT for a in f['acc']):
+            continue
+        b = F.body(f)
+        if b is None:
+            continue
+        body = b['body']
+        optlocals = {v['di'] for v in walk(body) if v.get('k') == 'VarDecl' and v.get('init') is not None and 'bool' in (v.get('t') or '') and is_opt(v['init'], ())}
+        for x in walk(body):
+            if x.get('k') == 'IfStmt' and x.get('cond') is not None and is_opt(x['cond'], optlocals):
+                nbranches += 1
+                for br in (x.get('then'), x.get('else')):
+                    for y in walk(br or {}):
+                        if y.get('k') == 'CXXMemberCallExpr' and y.get('fid') in writers and writers[y['fid']][0].get('cls') == f['cls']:
+                            g, w = writers[y['fid']]
+                            hits.setdefault((f['name'], g['name']), (f, y['l'], 'calls %s, which writes %s' % (g['name'], ', '.join(w[:2]))))
+                        if y.get('k') == 'MemberExpr' and y.get('dk') == 'Field' and (y.get('n') or '').startswith(f['cls'] + '::') and (y.get('a') or 'r') not in ('r', 'a'):
+                            hits.setdefault((f['name'], y['n']), (f, y['l'], 'writes %s' % y['n']))
+    ctx.floor('R27.5 branches controlled by an option test in lib/check*.cpp', nbranches, 100)
+    for (fname, what), (f, line, text) in sorted(hits.items()):
+        ctx.ob('R27.5', 'state-under-option:%s:%s' % (fname, what.split('::')[-1]), False,
+               '%s %s at line %s inside a branch controlled by a severity / certainty test: later reports of the check that read this state change when the option is enabled'
+               % (fname, text, line), '%s:%s' % (f['file'], line))
+    ctx.ob('R27.5', 'state-under-option-census', True, '%d option-controlled branches in lib/check*.cpp inspected, %d modify member state' % (nbranches, len(hits)), 'lib/check*.cpp')
